@@ -349,8 +349,20 @@ fn run_scenario(s: &Scenario, miri: bool, hb: Option<&Heartbeat>) -> Outcome {
     // whatever index the advance named (a later file, or a restart of the same one). Judged from the operations, not from the
     // implementation's state, so that an advance which silently did nothing is seen.
     let advance_frees_credit = ops.iter().any(|(ca, _, o, _)| matches!(o, Sig::Advance { .. }) && ops.iter().all(|(_, ds, x, _)| !matches!(x, Sig::Send { .. }) || ds < ca));
+    // an acknowledgement for the current file that was issued after every send had returned is capped by the final `sent` only:
+    // if even the lower bound it sets on `acked` leaves room for the chunk, the waiter must return — whether or not the
+    // implementation actually applied that acknowledgement (a repeated cumulative ACK dropped as a "duplicate" is seen this way).
+    let no_advance = !ops.iter().any(|(_, _, o, _)| matches!(o, Sig::Advance { .. }));
+    let sent_final: u64 = s.pre * s.unit + ops.iter().map(|(_, _, o, _)| if let Sig::Send { n } = o { *n } else { 0 }).sum::<u64>();
+    let acked_lb: u64 = ops
+        .iter()
+        .filter(|(ca, _, o, _)| matches!(o, Sig::Ack { file: 0, .. }) && ops.iter().all(|(_, ds, x, _)| !matches!(x, Sig::Send { .. }) || ds < ca))
+        .map(|(_, _, o, _)| if let Sig::Ack { off, .. } = o { (*off).min(sent_final) } else { 0 })
+        .max()
+        .unwrap_or(0);
+    let ack_frees_credit = no_advance && matches!(s.kind, Kind::Credit { chunk } if sent_final - acked_lb == 0 || sent_final - acked_lb + chunk <= s.window);
     let must_return = match s.kind {
-        Kind::Credit { chunk } => advance_frees_credit || !matches!(ctl.wait_for_credit(chunk, Instant::now()), Err(CreditError::Timeout)),
+        Kind::Credit { chunk } => advance_frees_credit || ack_frees_credit || !matches!(ctl.wait_for_credit(chunk, Instant::now()), Err(CreditError::Timeout)),
         Kind::Reconnect => {
             cancelled
                 || ops.iter().any(|(rc, _, o, ok)| {
